@@ -199,13 +199,13 @@ func init() {
 			bound = 3
 		}
 		for _, s := range gridS() {
-			engine.ExploreS(ctx, scenarioTCP(s, 1), engine.SConfig{Bound: bound, Shard: ctx.Shard, NShards: ctx.NShards, Deadline: ctx.Deadline})
+			engine.ExploreS(ctx, scenarioTCP(s, 1), engine.SConfig{BothPolicies: true, Bound: bound, Shard: ctx.Shard, NShards: ctx.NShards, Deadline: ctx.Deadline})
 		}
 		for _, s := range gridShutdown() {
-			engine.ExploreS(ctx, scenarioTCP(s, -1), engine.SConfig{Bound: bound, Shard: ctx.Shard, NShards: ctx.NShards, Deadline: ctx.Deadline})
+			engine.ExploreS(ctx, scenarioTCP(s, -1), engine.SConfig{BothPolicies: true, Bound: bound, Shard: ctx.Shard, NShards: ctx.NShards, Deadline: ctx.Deadline})
 		}
 		for _, sc := range udpScenarios() {
-			engine.ExploreS(ctx, sc, engine.SConfig{Bound: bound, Shard: ctx.Shard, NShards: ctx.NShards, Deadline: ctx.Deadline})
+			engine.ExploreS(ctx, sc, engine.SConfig{BothPolicies: true, Bound: bound, Shard: ctx.Shard, NShards: ctx.NShards, Deadline: ctx.Deadline})
 		}
 	})
 	hk.Replayers["C18"] = func(ctx *engine.Ctx, rp engine.Replay) []*engine.Finding {
